@@ -229,6 +229,8 @@ CONSTS = [
     ("SEGLOG_MAX_RECORD_PAYLOAD_SIZE", "MAX_RECORD_PAYLOAD_SIZE", ["nomt/src/seglog/mod.rs"]),
     # api
     ("MAX_COMMIT_CONCURRENCY", "MAX_COMMIT_CONCURRENCY", ["nomt/src/lib.rs"]),
+    # io pool
+    ("MAX_IO_ATTEMPTS", "MAX_IO_ATTEMPTS", ["nomt/src/io/mod.rs"]),
 ]
 
 # constants that are not `const` items but literals inside code; (lean name, file, regex with ONE group = the
